@@ -460,8 +460,35 @@ class Ctx:
         p.write_text(json.dumps(jsonable(obj), indent=1))
         return p
 
+    def translator_failed(self, what, err, covered_by):
+        """The translator could not read the live source (its shape left the recognised subset).  The generated
+        Lean file then keeps the content of the last successful translation, so the theorems are about that
+        model; it stays TIED to the live code iff the exact correspondence ops `covered_by` (model vs
+        implementation on the same inputs) all ran and agree.  Decided in finish(): only if they did not is this
+        a broken obligation."""
+        self.__dict__.setdefault("_translator_failures", []).append(
+            {"what": what, "err": repr(err)[:300], "covered_by": list(covered_by)})
+
+    def _settle_translator_failures(self):
+        for tf in self.__dict__.get("_translator_failures", []):
+            ops = [self.corr_ops.get(op, {"n": 0, "mismatch": 1}) for op in tf["covered_by"]]
+            built = not any(b.get("kind") in ("lake-build-failed", "axiom-audit", "forbidden-construct")
+                            for b in self.broken)
+            if tf["covered_by"] and built and all(o["n"] > 0 and o["mismatch"] == 0 for o in ops):
+                self.notes.setdefault("translator_not_applicable", []).append(
+                    dict(tf, tie="generated model kept from the last successful translation; tied to the live "
+                                 "code by the exact correspondence ops " + ", ".join(
+                                     f"{op} ({self.corr_ops[op]['n']} agreeing)" for op in tf["covered_by"])))
+                log(f"[{self.pid}] translator not applicable ({tf['what']}); tie by correspondence "
+                    f"{tf['covered_by']}")
+            else:
+                self.broken.append({"kind": "translator", "what": tf["what"], "err": tf["err"],
+                                    "correspondence_fallback": {op: self.corr_ops.get(op) for op in tf["covered_by"]}})
+        self.__dict__["_translator_failures"] = []
+
     def finish(self):
         rc = 0
+        self._settle_translator_failures()
         for h in self.known_hits:
             emit(f"KNOWN-FINDING: property={self.pid} {h['id']} {h['what']}")
         if self.violations:
